@@ -220,6 +220,52 @@ Theorem C13_trr_stale_size_refuted :
 Proof. exact trr_stale_size_refuted. Qed.
 Print Assumptions C13_trr_stale_size_refuted.
 
+(* ---------------------------------------------------------------- GROMACS TRR: frames of different sizes
+
+   The frames of one TRR file need not have the same data size (velocities / forces written
+   every nstvout / nstfout steps, positions every nstxout steps).  A [layout] is a LIST of
+   (header size, data size): in C13_trr_every_interleaving, C13_trr_no_complete_frame_lost,
+   C13_trr_never_reads_past_size ... the data size is universally quantified PER FRAME
+   ([lay_ok h lay] fixes the header size and says 0 <= data size, nothing else), because the
+   model's pending frame carries the size announced by its own header - as the code does:
+   `self.data_size = sum(header[key] for key in TRR_DATA_ITEMS)` for every header it reads.
+   [trr_sched_g dg] is the loop with the two data-size guards (`size >= bytes_read + data_size`,
+   `getsize < bytes_read + data_size`) using [dg lay idx d] instead; with the frame's own size
+   it is the loop of the theorems above: *)
+Theorem C13_trr_guard_uses_own_frame_size : forall head lay sizes fin,
+  trr_sched_g own_size head lay sizes fin = trr_sched true head lay sizes fin.
+Proof. exact trr_sched_g_own. Qed.
+Print Assumptions C13_trr_guard_uses_own_frame_size.
+
+(* the data size computed ONCE (while data_size == 0, "like the header size") is refuted:
+   (a) a positions-only frame followed by a larger frame: the stale size lets get_data run on a
+   frame that is only partly on disk (TGarbage at the data offset 1168 of frame 1: the real
+   reader raises struct.error or returns garbage on a PARTIAL frame); the loop as it is waits
+   and hands out both frames *)
+Theorem C13_trr_cached_data_size_torn_refuted :
+  exists lay sizes, lay_ok trr_header_bytes_single lay /\
+    Forall (fun s => s <= layout_size lay) sizes /\
+    t_bad (m_st (fst (trr_sched_g cached_size trr_head_size lay sizes (layout_size lay)))) = true /\
+    yields (snd (trr_sched_g cached_size trr_head_size lay sizes (layout_size lay))) = [0%nat] /\
+    In (TGarbage 1168) (snd (trr_sched_g cached_size trr_head_size lay sizes (layout_size lay))) /\
+    t_bad (m_st (fst (trr_sched true trr_head_size lay sizes (layout_size lay)))) = false /\
+    yields (snd (trr_sched true trr_head_size lay sizes (layout_size lay))) = [0%nat; 1%nat].
+Proof. exact trr_cached_size_torn_refuted. Qed.
+Print Assumptions C13_trr_cached_data_size_torn_refuted.
+
+(* (b) a large frame first (forces with frame 0 only): the loop waits for bytes that are never
+   written and, when GROMACS has ended, returns without the last frame although it is
+   completely on disk (no cut at all) *)
+Theorem C13_trr_cached_data_size_lost_refuted :
+  exists lay sizes, lay_ok trr_header_bytes_single lay /\
+    Forall (fun s => s <= layout_size lay) sizes /\
+    m_pc (fst (trr_sched_g cached_size trr_head_size lay sizes (layout_size lay))) = PcDone /\
+    t_bad (m_st (fst (trr_sched_g cached_size trr_head_size lay sizes (layout_size lay)))) = false /\
+    yields (snd (trr_sched_g cached_size trr_head_size lay sizes (layout_size lay))) = [0%nat] /\
+    yields (snd (trr_sched true trr_head_size lay sizes (layout_size lay))) = [0%nat; 1%nat].
+Proof. exact trr_cached_size_lost_refuted. Qed.
+Print Assumptions C13_trr_cached_data_size_lost_refuted.
+
 (* ---------------------------------------------------------------- the readers before the repair (lead L1) *)
 
 (* xyz_reader as it was: a cut inside the last number of a frame returns that frame with a
@@ -303,4 +349,20 @@ Example C13_example_trr_interleaving :
 Proof.
   cbn zeta. split; [|repeat split; vm_compute; reflexivity].
   repeat constructor; cbn; lia.
+Qed.
+
+(* frames of different sizes (30 atoms, single precision: box + x / box + x + v / box + x /
+   box + x + v + f): the hypotheses of C13_trr_every_interleaving hold, and with the header of
+   the larger frame 1 read while only part of its data is on disk all four frames are handed
+   out; on such a file the cached-size loop goes wrong *)
+Example C13_example_trr_frames_of_different_sizes :
+  let lay := [(84, 396); (84, 756); (84, 396); (84, 1116)] in
+  let sizes := [0; 1000; 1000; 1000; 1200; 1200; 1200; 1200] in
+  lay_ok 84 lay /\ layout_size lay = 3000 /\ Forall (fun s => s <= 3000) sizes /\
+  yields (snd (trr_sched true 1000 lay sizes 3000)) = [0%nat; 1%nat; 2%nat; 3%nat] /\
+  t_bad (m_st (fst (trr_sched_g cached_size 1000 lay sizes 3000))) = true.
+Proof.
+  cbn zeta. split; [repeat constructor; cbn; lia|].
+  split; [reflexivity|]. split; [repeat constructor; cbn; lia|].
+  split; vm_compute; reflexivity.
 Qed.
